@@ -28,6 +28,7 @@ func runC05(r *hk.Run) {
 	runH2Read(r, rng.Fork())
 	runH2Write(r, rng.Fork())
 	runH2Meta(r, rng.Fork())
+	runH2MetaSeq(r, rng.Fork())
 	runVarintReaders(r, rng.Fork())
 	runH3Frames(r, rng.Fork())
 	runH3Fields(r, rng.Fork())
